@@ -202,21 +202,29 @@ pub struct RunResult {
     pub found: bool,
 }
 
-pub fn explore(scn: Scenario, rep: Arc<Reporter>, threads: usize, dfs: bool, dedup: bool) -> RunResult {
+pub fn explore(scn: Scenario, rep: Arc<Reporter>, threads: usize, dfs: bool, dedup: bool, cap: Option<usize>) -> Option<RunResult> {
     let stats = Arc::new(Stats::default());
     let model = ConnModel { scn: Arc::new(scn), rep, stats: stats.clone(), dedup, max_depth: 200 };
-    let b = model.checker().threads(threads);
-    let (found, unique) = if dfs {
+    let mut b = model.checker().threads(threads);
+    if let Some(c) = cap {
+        b = b.target_state_count(c);
+    }
+    let (found, unique, generated) = if dfs {
         let c = b.spawn_dfs().join();
-        (!c.discoveries().is_empty(), c.unique_state_count())
+        (!c.discoveries().is_empty(), c.unique_state_count(), c.state_count())
     } else {
         let c = b.spawn_bfs().join();
-        (!c.discoveries().is_empty(), c.unique_state_count())
+        (!c.discoveries().is_empty(), c.unique_state_count(), c.state_count())
     };
+    if let Some(c) = cap {
+        if generated >= c && !found {
+            return None; // too big for the single-threaded phase; the caller re-runs it in parallel
+        }
+    }
     let tl = stats.terminal_logs.lock().unwrap().len() as u64;
     let ac = stats.action_counts.lock().unwrap().clone();
     let sp = stats.sample_paths.lock().unwrap().clone();
-    RunResult {
+    Some(RunResult {
         states: unique as u64,
         transitions: stats.transitions.load(Ordering::Relaxed),
         terminals: stats.terminals.load(Ordering::Relaxed),
@@ -227,5 +235,5 @@ pub fn explore(scn: Scenario, rep: Arc<Reporter>, threads: usize, dfs: bool, ded
         action_counts: ac,
         samples: sp,
         found,
-    }
+    })
 }
